@@ -1,8 +1,10 @@
 """Rule registry."""
 from . import (calendar_mode, normalise, eqhash, recurrence, ownership,
-               typestate, zone, tablerules, signtables, errors, cli, scale)
+               typestate, zone, tablerules, signtables, errors, cli, scale,
+               extra)
 
 ALL_RULES = {}
 for _mod in (calendar_mode, normalise, eqhash, recurrence, ownership,
-             typestate, zone, tablerules, signtables, errors, cli, scale):
+             typestate, zone, tablerules, signtables, errors, cli, scale,
+             extra):
     ALL_RULES.update(_mod.RULES)
